@@ -10,7 +10,8 @@ PROP="${1:?property id}"
 ROOT="$(cd "$(dirname "$0")/.." && pwd)"
 SEED="${VERIF_SEED:-0}"
 SCALE="${DLTVERIF_FUZZ_SCALE:-1}"
-BIN="$ROOT/harness/target/release/dltverif"
+HARNESS="${DLTVERIF_HARNESS_DIR:-$ROOT/harness}"; FUZZ="${DLTVERIF_FUZZ_DIR:-$ROOT/fuzz}"; OUT="${DLTVERIF_OUT:-$ROOT}"
+BIN="$HARNESS/target/release/dltverif"
 case "$PROP" in
   C02|C03|C04|C16) TARGET=bytes; RUNS=$((1500000*SCALE)); MAXLEN=4096; EXTRA="";;
   C12) TARGET=fibex; RUNS=$((150000*SCALE)); MAXLEN=8192; EXTRA="-timeout=5";;
@@ -22,12 +23,12 @@ WORK="$ROOT/work/fuzz-$PROP-$$"
 mkdir -p "$WORK"
 cleanup() { rm -rf "$WORK"; rm -f /dev/shm/dltverif-fuzz-*.xml 2>/dev/null; }
 trap cleanup EXIT
-if ! cargo +nightly fuzz build --fuzz-dir "$ROOT/fuzz" "$TARGET" >"$WORK/build.log" 2>&1; then
+if ! cargo +nightly fuzz build --fuzz-dir "$FUZZ" "$TARGET" >"$WORK/build.log" 2>&1; then
   echo "INCONCLUSIVE property=$PROP the libFuzzer target does not build (cargo +nightly fuzz build); see below" >&2
   tail -n 30 "$WORK/build.log" >&2
   exit 2
 fi
-EXE="$ROOT/fuzz/target/x86_64-unknown-linux-gnu/release/$TARGET"
+EXE="$FUZZ/target/x86_64-unknown-linux-gnu/release/$TARGET"
 [ -x "$EXE" ] || { echo "INCONCLUSIVE property=$PROP fuzz binary missing" >&2; exit 2; }
 "$BIN" gen-corpus "$TARGET" "$WORK/seedcorpus" >/dev/null || { echo "INCONCLUSIVE property=$PROP corpus generation failed" >&2; exit 2; }
 START=$(date +%s)
@@ -59,7 +60,7 @@ for a in "$WORK"/p*/artifacts/*; do
   [ -f "$a" ] || continue
   ARTIFACTS=$((ARTIFACTS+1))
   case "$(basename "$a")" in
-    oom-*|leak-*) echo "INCONCLUSIVE property=$PROP libFuzzer reported $(basename "$a") (memory limit); not a verdict about the property" >&2; mkdir -p "$ROOT/replays"; cp "$a" "$ROOT/replays/$PROP-fuzz-$(basename "$a")"; [ $RC -eq 0 ] && RC=2; continue;;
+    oom-*|leak-*) echo "INCONCLUSIVE property=$PROP libFuzzer reported $(basename "$a") (memory limit); not a verdict about the property" >&2; mkdir -p "$OUT/replays"; cp "$a" "$OUT/replays/$PROP-fuzz-$(basename "$a")"; [ $RC -eq 0 ] && RC=2; continue;;
   esac
   OUT=$("$BIN" fuzz-triage "$PROP" "$TARGET" "$a"); T=$?
   echo "$OUT"
@@ -68,12 +69,12 @@ for a in "$WORK"/p*/artifacts/*; do
     UNCONFIRMED=$((UNCONFIRMED+1))
     case "$(basename "$a")" in
       crash-*) # crashed under libFuzzer/ASan but the in-process oracle accepts it: keep the raw input, report for C03 only
-        if [ "$PROP" = "C03" ]; then mkdir -p "$ROOT/replays"; cp "$a" "$ROOT/replays/C03-fuzz-asan-$(basename "$a")"; tail -n 25 "$(dirname "$a")/../log" >&2
-          echo "VIOLATION property=C03 replay=$ROOT/replays/C03-fuzz-asan-$(basename "$a")"; echo "  sanitizer-only failure of the fuzz target (see the log above); replay with: $EXE <file>"; RC=1; fi;;
+        if [ "$PROP" = "C03" ]; then mkdir -p "$OUT/replays"; cp "$a" "$OUT/replays/C03-fuzz-asan-$(basename "$a")"; tail -n 25 "$(dirname "$a")/../log" >&2
+          echo "VIOLATION property=C03 replay=$OUT/replays/C03-fuzz-asan-$(basename "$a")"; echo "  sanitizer-only failure of the fuzz target (see the log above); replay with: $EXE <file>"; RC=1; fi;;
     esac
   fi
 done
-python3 - "$ROOT/evidence/$PROP.json" <<PY
+python3 - "$OUT/evidence/$PROP.json" <<PY
 import json, sys
 p = sys.argv[1]
 try:
